@@ -1,9 +1,16 @@
 """C01 -- shell/exec output is exactly what the device wrote, for every chunking."""
 import oracles, scen
 from units.mk import Unit, COMMON
+
+
+def _conc(ctx):
+    from units import conc
+    conc.conc_sessions(ctx, int((20 if ctx.tier == "quick" else 300) * ctx.budget))
+
+
 Unit([("shell", scen.gen_shell, 1)], (oracles.o_c01,) + COMMON,
      "sessions (connect, then shell/exec_out/streaming_shell/root) against the reactive simulator: outputs biased to UTF-8 edge cases, split into WRTE "
      "payloads at every byte / randomly / with empty payloads / none at all; burst and stop-and-wait devices; remote ids {sequential, equal to local, "
      "near 2^32, random}; id-counter presets near 0 and 2^32; foreign-stream packets injected; six read-fragmentation styles; every scenario on "
      "AdbDevice and AdbDeviceAsync. Non-trivial = some op sent bytes or failed other than by the connection guard; distinct by (family, per-op kind, "
-     "outcome class, size class).", 150, 4000).export(globals())
+     "outcome class, size class).", 150, 4000, extra_run=_conc).export(globals())
